@@ -174,7 +174,7 @@ def _run_property(ctx):
     generic_cases(ctx, rng, 60 if ctx.tier == 'quick' else 1500)
 
 
-MERGE_MODEL_THEOREMS = []
+MERGE_MODEL_THEOREMS = ['Nbdime.C06_model_no_conflict']
 THEOREMS.extend(t for t in MERGE_MODEL_THEOREMS if t not in THEOREMS)
 
 
